@@ -110,3 +110,16 @@ int probe() { multi::array<int, %(D)d> A(multi::extensions_t<%(D)d>{%(EXT)s}, 1)
             if not ok:
                 viol[key] = dict(kind="compile-probe", statement=src.strip().splitlines()[-2].strip()[:300], expected="compiles", observed="ill-formed: " + first, replay=None)
     return viol, dict(compile_probes=len(items)), [], []
+
+
+def c14_probes(tier):
+    """the LAPACK adaptor headers named by the property must at least be includable"""
+    items = []
+    for hdr in ("lapack/syev.hpp", "lapack/getrf.hpp", "lapack.hpp", "lapack/potrf.hpp", "lapack/geqrf.hpp", "lapack/gesvd.hpp"):
+        items.append(("header|adaptors/%s|does-not-compile" % hdr, "#include <boost/multi/adaptors/%s>\nint main() { return 0; }\n" % hdr, True))
+    viol = {}
+    with cf.ThreadPoolExecutor(max_workers=8) as ex:
+        for key, ok, expect_ok, first, src in ex.map(_compile, items):
+            if not ok:
+                viol[key] = dict(kind="compile-probe", statement=src.splitlines()[0], expected="compiles", observed="ill-formed: " + first, replay=None)
+    return viol, dict(compile_probes=len(items)), [], []
